@@ -231,6 +231,10 @@ macro_rules! matrix_impl {
                     ("self", j(&self_)), ("snake_arg", j(&snake_arg)), ("match", j(&match_))]);
                 self.ret()
             }
+            $($asyncness)? fn opt_query(&self, first: Option<String>, lst: Vec<i32>, st: BTreeSet<String>, last: Option<i32>) -> Result<String, Error> {
+                self.record("optQuery", vec![("first", j(&first)), ("lst", j(&lst)), ("st", j(&st)), ("last", j(&last))]);
+                self.ret()
+            }
             $($asyncness)? fn safe_body(&self, body: a::SafeObj, n: i32) -> Result<String, Error> {
                 self.record("safeBody", vec![("body", j(&body)), ("n", j(&n))]);
                 self.ret()
@@ -604,6 +608,10 @@ macro_rules! gen_calls {
                 }
                 "names" => $w!(c.names(arg(args, "type")?, arg(args, "fooBar")?, arg(args, "async")?, arg(args, "camelCase")?, arg(args, "self")?,
                     &arg::<Vec<i32>>(args, "snake_arg")?, arg(args, "match")?)).map(|v| j(&v)),
+                "optQuery" => {
+                    let first: Option<String> = arg(args, "first")?;
+                    $w!(c.opt_query(first.as_deref(), &arg::<Vec<i32>>(args, "lst")?, &arg::<BTreeSet<String>>(args, "st")?, arg(args, "last")?)).map(|v| j(&v))
+                }
                 "safeBody" => $w!(c.safe_body(&arg::<a::SafeObj>(args, "body")?, arg(args, "n")?)).map(|v| j(&v)),
                 other => return Err(format!("unknown endpoint {other}")),
             })
